@@ -328,21 +328,44 @@ func TestC38EpochTick(t *testing.T) {
 
 	rapid.Check(t, func(t *rapid.T) {
 		var history []string
+		interesting := false
 		lastNotified := uint64(chainEpoch)
+		snapshotFaults := 0
 		notify := func(n uint64) {
 			event, err := hNew.Event(env, irsetup.Variation{Epoch: n, Salt: byte(n)})
 			if err != nil {
 				t.Fatalf("harness: %v", err)
 			}
 			env.F.State.Set(-1, false) // notifications are processed by every inner ring node
+			// RPC fault exactly at the network map snapshot read of the new-epoch handling
+			// (connection trouble while switching epochs), in at most two deliveries per history
+			fault := snapshotFaults < 2 && rapid.IntRange(0, 3).Draw(t, "snapshotReadFails") == 0
+			if fault {
+				snapshotFaults++
+				proxy.FailInvoke("listNodes", "harness: injected failure of the network map snapshot read")
+				history = append(history, "snapshot-read-fails:")
+				interesting = true
+			}
 			runHandler(env, proxy, func() { hNew.Call(event) })
+			if fault {
+				proxy.FailInvoke("listNodes", "")
+				sawList := false
+				for _, c := range proxy.Calls() {
+					if c.Method == "invokefunction" && strings.Contains(neoproxy.Describe([]neoproxy.Call{c}), "listNodes") {
+						sawList = true
+					}
+				}
+				if !sawList {
+					t.Fatalf("harness: the injected fault was not hit (no listNodes read during NewEpoch handling): %s", neoproxy.Describe(proxy.Calls()))
+				}
+			}
 			if ws := proxy.Writes(); len(ws) > 0 {
 				t.Fatalf("NewEpoch(%d) notification with an unchanged network map caused writes: %d", n, len(ws))
 			}
 			lastNotified = n
 		}
 		notify(uint64(chainEpoch))
-		ticks, interesting := 0, false
+		ticks := 0
 		steps := rapid.IntRange(1, 6).Draw(t, "steps")
 		for i := 0; i < steps; i++ {
 			switch op := rapid.SampledFrom([]string{"tick", "tick", "tick", "chain-epoch", "stale-notify", "repeat-notify"}).Draw(t, "op"); op {
@@ -405,7 +428,7 @@ func TestC38EpochTick(t *testing.T) {
 				}
 			}
 		}
-		rec.Case(ticks > 0 && (interesting || len(history) > 2), strings.Join(history, " "), fmt.Sprintf("ticks-%d", min(ticks, 3)), map[bool]string{true: "stale-or-undelivered", false: "in-sync"}[interesting])
+		rec.Case(ticks > 0 && (interesting || len(history) > 2), strings.Join(history, " "), fmt.Sprintf("ticks-%d", min(ticks, 3)), map[bool]string{true: "stale-or-undelivered-or-faulty", false: "in-sync"}[interesting], fmt.Sprintf("snapshot-read-faults-%d", snapshotFaults))
 		if rec.WantSample() {
 			rec.Sample(history)
 		}
